@@ -1186,8 +1186,8 @@ def hosts_control_flow():
     N = oh.make_node
     for cond_form in ("input", "const_true", "const_false"):
         for then_kind, else_kind in itertools.product(
-                ["id_outer_node", "id_input", "id_outer_init", "id_inner", "folded_const", "neg_outer"],
-                ["neg_outer", "id_outer_node", "id_inner"]):
+                ["id_outer_node", "id_input", "id_outer_init", "id_inner", "folded_const", "neg_outer", "own_init_direct"],
+                ["neg_outer", "id_outer_node", "id_inner", "own_init_direct"]):
             h = H(f"If cond={cond_form} then={then_kind} else={else_kind}")
             h.inp("x", F, (3,))
             if cond_form == "input":
@@ -1208,6 +1208,9 @@ def hosts_control_flow():
                     return _sub(pfx, [N("Identity", ["w"], [o])], [(o, F, sh)])
                 if kind == "id_inner":
                     return _sub(pfx, [N("Mul", ["t", "w"], [pfx + "_m"]), N("Identity", [pfx + "_m"], [o])], [(o, F, sh)])
+                if kind == "own_init_direct":
+                    # the branch has no node at all: its output IS one of its own initializers
+                    return _sub(pfx, [], [(o, F, sh)], [nh.from_array(np.array([7.0, -8.0, 9.0], dtype=f32), o)])
                 if kind == "folded_const":
                     k1 = nh.from_array(np.array([1.0, 2.0, 3.0], dtype=f32), pfx + "_k1")
                     k2 = nh.from_array(np.array(2.0, dtype=f32), pfx + "_k2")
